@@ -151,8 +151,7 @@ def findOcc (t : Int) : List Occ → Option Occ
 
 /-- `prediction.occupancy_at_time_step(t)` -/
 def Pred.occAt (p : Pred) (t : Int) : Pred × Res (Option Occ) :=
-  let (p', r) := p.occSet
-  (p', (findOcc t) <$> r)
+  (p.occSet.1, (findOcc t) <$> p.occSet.2)
 
 /-- `prediction.trajectory.state_at_time_step(t)` as an index into the state list (trajectory.py:140-142) -/
 def trajIndex (t1 : Int) (n : Nat) (t : Int) : Option Nat :=
@@ -185,18 +184,15 @@ def Obstacle.occAt (o : Obstacle) (t : Int) : Obstacle × Res (Option Occ) :=
   | .environment _ sh => (o, .ok (some ⟨t, t, .fixed sh⟩))
   | .dynamic i init r p =>
     if t = init.t then (o, .ok (some ⟨t, t, r⟩))
-    else if t > init.t ∧ p ≠ .absent then
-      let (p', res) := p.occAt t
-      (.dynamic i init r p', res)
+    else if t > init.t ∧ p ≠ .absent then (.dynamic i init r (p.occAt t).1, (p.occAt t).2)
     else (o, .ok none)
   | .phantom i p =>
     if p = .absent then (o, .ok none) else
     -- `self._prediction.occupancy_at_time_step(t) is not None` and then the same call again
-    let (p', res) := p.occAt t
-    match res with
-    | .error e => (.phantom i p', .error e)
-    | .ok none => (.phantom i p', .ok none)
-    | .ok (some _) => let (p'', res2) := p'.occAt t; (.phantom i p'', res2)
+    match (p.occAt t).2 with
+    | .error e => (.phantom i (p.occAt t).1, .error e)
+    | .ok none => (.phantom i (p.occAt t).1, .ok none)
+    | .ok (some _) => (.phantom i ((p.occAt t).1.occAt t).1, ((p.occAt t).1.occAt t).2)
 
 /-- answer of `state_at_time`: nothing, the initial state object, or the i-th state of the trajectory -/
 inductive StOut where
@@ -228,8 +224,8 @@ def withObstacle {α : Type} (os : List Obstacle) (oid : Nat) (f : Obstacle → 
   match os with
   | [] => ([], .error .attr)
   | o :: rest =>
-    if o.id = oid then let (o', r) := f o; (o' :: rest, r)
-    else let (rest', r) := withObstacle rest oid f; (o :: rest', r)
+    if o.id = oid then ((f o).1 :: rest, (f o).2)
+    else (o :: (withObstacle rest oid f).1, (withObstacle rest oid f).2)
 
 /-- `Scenario.occupancies_at_time_step` loop: for every obstacle of the role, `occupancy_at_time(t)` is evaluated for its
     truth value and, when there is one, once more for the list. -/
@@ -237,23 +233,33 @@ def occsLoop (t : Int) (role : Option Role) : List Obstacle → List Obstacle ×
   | [] => ([], .ok [])
   | o :: rest =>
     if role = none ∨ role = some o.role then
-      let (o1, r1) := o.occAt t
-      match r1 with
-      | .error e => (o1 :: rest, .error e)
-      | .ok none => let (rest', r) := occsLoop t role rest; (o1 :: rest', r)
+      match (o.occAt t).2 with
+      | .error e => ((o.occAt t).1 :: rest, .error e)
+      | .ok none => ((o.occAt t).1 :: (occsLoop t role rest).1, (occsLoop t role rest).2)
       | .ok (some _) =>
-        let (o2, r2) := o1.occAt t
-        match r2 with
-        | .error e => (o2 :: rest, .error e)
-        | .ok x => let (rest', r) := occsLoop t role rest; (o2 :: rest', (fun l => x.toList ++ l) <$> r)
-    else let (rest', r) := occsLoop t role rest; (o :: rest', r)
+        match ((o.occAt t).1.occAt t).2 with
+        | .error e => (((o.occAt t).1.occAt t).1 :: rest, .error e)
+        | .ok x => (((o.occAt t).1.occAt t).1 :: (occsLoop t role rest).1, (fun l => x.toList ++ l) <$> (occsLoop t role rest).2)
+    else (o :: (occsLoop t role rest).1, (occsLoop t role rest).2)
 
-/-- `Scenario.obstacle_states_at_time_step`: ids of the dynamic obstacles with a state at `t`, then all static ones. -/
-def statesAtIds (t : Int) (os : List Obstacle) : Res (List Nat) := do
-  let dyn ← (os.filter (·.role == .dynamic)).filterMapM fun o => do
-    let s ← o.stateAt t
-    pure (if s = .none then none else some o.id)
-  pure (dyn ++ (os.filter (·.role == .static)).map (·.id))
+/-- first loop of `Scenario.obstacle_states_at_time_step`: ids of the dynamic obstacles that have a state at `t` -/
+def dynStates (t : Int) : List Obstacle → Res (List Nat)
+  | [] => .ok []
+  | o :: rest =>
+    if o.role = .dynamic then
+      match o.stateAt t with
+      | .error e => .error e
+      | .ok s =>
+        match dynStates t rest with
+        | .error e => .error e
+        | .ok r => .ok (if s = .none then r else o.id :: r)
+    else dynStates t rest
+
+/-- `Scenario.obstacle_states_at_time_step`: the keys of the answer: dynamic obstacles with a state at `t`, then all static ones -/
+def statesAtIds (t : Int) (os : List Obstacle) : Res (List Nat) :=
+  match dynStates t os with
+  | .error e => .error e
+  | .ok dyn => .ok (dyn ++ (os.filter (fun o => o.role == .static)).map (·.id))
 
 /-! ## Lanelet network, traffic lights, planning problems -/
 
@@ -316,8 +322,8 @@ def withLight (ls : List Light) (lid : Nat) (t : Int) : List Light × Res Nat :=
   match ls with
   | [] => ([], .error .attr)          -- find_traffic_light_by_id returns None: `None.get_state_at_time_step`
   | l :: rest =>
-    if l.id = lid then let (l', r) := l.stateAt t; (l' :: rest, r)
-    else let (rest', r) := withLight rest lid t; (l :: rest', r)
+    if l.id = lid then ((l.stateAt t).1 :: rest, (l.stateAt t).2)
+    else (l :: (withLight rest lid t).1, (withLight rest lid t).2)
 
 inductive TblKind where
   | plain | dflt            -- `dict` | `collections.defaultdict(list)`
@@ -497,42 +503,38 @@ def runLightQs : List Nat → List Light → List Light
   | [], ls => ls
   | lid :: rest, ls => runLightQs rest (withLight ls lid 0).1
 
+/-- `obstacle.prediction.occupancy_set` (static and environment obstacles have no `prediction`: AttributeError) -/
+def Obstacle.occSet (o : Obstacle) : Obstacle × Res (List Occ) :=
+  match o with
+  | .dynamic i init reg p => (.dynamic i init reg p.occSet.1, p.occSet.2)
+  | .phantom i p => (.phantom i p.occSet.1, p.occSet.2)
+  | o => (o, .error .attr)
+
 /-- One read-only operation. -/
 def step (op : Op) (s : St) : St × Res Out :=
   match op with
   | .occ oid t =>
-    let (os, r) := withObstacle s.obstacles oid (fun o => o.occAt t)
-    ({ s with obstacles := os }, Out.occ <$> r)
+    ({ s with obstacles := (withObstacle s.obstacles oid (fun o => o.occAt t)).1 },
+     Out.occ <$> (withObstacle s.obstacles oid (fun o => o.occAt t)).2)
   | .state oid t =>
-    let (os, r) := withObstacle s.obstacles oid (fun o => (o, o.stateAt t))
-    ({ s with obstacles := os }, Out.state <$> r)
+    ({ s with obstacles := (withObstacle s.obstacles oid (fun o => (o, o.stateAt t))).1 },
+     Out.state <$> (withObstacle s.obstacles oid (fun o => (o, o.stateAt t))).2)
   | .occs t role =>
     if t < 0 then (s, .error .assert) else          -- assert is_natural_number(time_step)
-    let (os, r) := occsLoop t role s.obstacles
-    ({ s with obstacles := os }, Out.occs <$> r)
+    ({ s with obstacles := (occsLoop t role s.obstacles).1 }, Out.occs <$> (occsLoop t role s.obstacles).2)
   | .statesAt t =>
     if t < 0 then (s, .error .assert) else
     (s, Out.ids <$> statesAtIds t s.obstacles)
   | .occSet oid =>
-    let (os, r) := withObstacle s.obstacles oid fun o =>
-      match o with
-      | .dynamic i init reg p => let (p', r) := p.occSet; (.dynamic i init reg p', r)
-      | .phantom i p => let (p', r) := p.occSet; (.phantom i p', r)
-      | o => (o, .error .attr)                      -- static / environment obstacles have no `prediction`
-    ({ s with obstacles := os }, Out.occs <$> r)
+    ({ s with obstacles := (withObstacle s.obstacles oid Obstacle.occSet).1 },
+     Out.occs <$> (withObstacle s.obstacles oid Obstacle.occSet).2)
   | .findPos pts => (s, Out.idss <$> s.net.findPos pts)
-  | .light lid t =>
-    let (ls, r) := withLight s.lights lid t
-    ({ s with lights := ls }, Out.nat <$> r)
+  | .light lid t => ({ s with lights := (withLight s.lights lid t).1 }, Out.nat <$> (withLight s.lights lid t).2)
   | .reads oq lq => ({ s with obstacles := runOccQs oq s.obstacles, lights := runLightQs lq s.lights }, .ok .unit)
-  | .deepcopy =>
-    let (self', copy) := s.net.deepcopy
-    ({ s with net := self' }, .ok (.copy { s with net := copy }))
-  | .pickle =>
-    let (self', copy) := s.net.pickle
-    ({ s with net := self' }, .ok (.copy { s with net := copy }))
-  | .writeXml wp => let (s', r) := s.write goalLanelets true wp; (s', Out.file <$> r)
-  | .writePb wp => let (s', r) := s.write goalLanelets false wp; (s', Out.file <$> r)
+  | .deepcopy => ({ s with net := s.net.deepcopy.1 }, .ok (.copy { s with net := s.net.deepcopy.2 }))
+  | .pickle => ({ s with net := s.net.pickle.1 }, .ok (.copy { s with net := s.net.pickle.2 }))
+  | .writeXml wp => ((s.write goalLanelets true wp).1, Out.file <$> (s.write goalLanelets true wp).2)
+  | .writePb wp => ((s.write goalLanelets false wp).1, Out.file <$> (s.write goalLanelets false wp).2)
 
 /-- A sequence of read-only operations (answers dropped). -/
 def run : List Op → St → St
@@ -565,6 +567,6 @@ structure St.Inv (s : St) : Prop where
 /-! ## The unrepaired protobuf writer and occupancy computation (for the defect theorems) -/
 
 def stepPbOld (wp : Bool) (s : St) : St × Res Out :=
-  let (s', r) := s.write goalLaneletsOld false wp; (s', Out.file <$> r)
+  ((s.write goalLaneletsOld false wp).1, Out.file <$> (s.write goalLaneletsOld false wp).2)
 
 end CR.Frame
